@@ -106,6 +106,10 @@ def run(chk, tier, scale=1.0):
     from checks import c10
     tres = vcommon.pmap(c10.timer_worker, [dict(build=(bplain if k % 2 else b), seed=chk.seed * 31 + k, rounds=1, props=PROPS) for k in range(2 if tier == "quick" else 16)])
     prun.fold(chk, "C01", tres)
+    # the module interface no shipped module uses (set address / host name / user name, challenge, kill, accept, holds ...), driven
+    # through the fixture module site_api and compared line for line with a model of the core (lib/sitemodel.py)
+    import sitemodel
+    sitemodel.fold_site(chk, "C01", tier, scale, 1009, ('C01',))
     chk.rule = ("random lock-step histories (%d events) over 3-5 ids with heavy reuse: announce / re-announce while live / data / passwords / hurry-up / "
                 "replies of every kind / stale, duplicate and malformed-tag replies / hook-fired timeouts / disconnect / registered, with and without the class "
                 "module and a timeout; plus %s orders of a 7-event script (two instances of one id); per-client automaton judges every output line; "
@@ -117,6 +121,9 @@ def run(chk, tier, scale=1.0):
 
 
 def replay(chk, rep):
+    if rep["witness"].get("site"):
+        import sitemodel
+        return sitemodel.replay_site(chk, rep["witness"], "C01", ('C01',))
     w = rep["witness"]
     if w.get("burst"):
         r = pcommon.burst_worker(dict(build=prun.build_daemon("c01-replay"), seed=w["seed"], n=w["n"], service=w["service"], after=w.get("after"), sock=w.get("sock")))
